@@ -63,13 +63,6 @@ Proof.
   intros. reflexivity.
 Qed.
 
-Fixpoint forall2b {A} (f : A -> A -> bool) (l l' : list A) : bool :=
-  match l, l' with
-  | [], [] => true
-  | x :: r, y :: r' => f x y && forall2b f r r'
-  | _, _ => false
-  end.
-
 Lemma node_eq_seq : forall i els j els', node_eq (NSeq i els) (NSeq j els') = forall2b node_eq els els'.
 Proof.
   intros. simpl. revert els'. induction els as [|x r IH]; destruct els'; simpl; auto.
